@@ -31,7 +31,7 @@ ASSUMPTIONS = {
     "np.power": "numpy.power on two integer-typed scalars computes in int64 (exact only below 2^63, "
     "ValueError for a negative integer exponent); otherwise the real power where defined, NaN elsewhere",
     "np.min": "numpy.min/max of a non-empty list return one of its elements (the least/greatest) as a numpy scalar",
-    "np.sqrt": "numpy.sqrt returns the non-negative real root as float64, NaN for negative input (errors ignored)",
+    "np.sqrt": "numpy.sqrt returns the non-negative real root as float64, NaN for negative input (errors ignored); TypeError for a Python int outside [-2^63, 2^64)",
     "np.absolute": "numpy.absolute is |x| and returns a numpy scalar",
     "math.isnan": "math.isnan is true exactly for NaN",
     "math.factorial": "math.factorial(n) = n! for integer n >= 0, ValueError for negative n",
@@ -139,11 +139,17 @@ def install(I):
         if v is NAN:
             return NAN
         if isinstance(v, Num):
+            t = tag_of(v)
+            pyint = b_and(b_not(t[0]), b_not(t[1]))
+            if not (pyint is False) and I.truth(z3.And(zbool(pyint), z3.Or(zreal(v) >= 2**64, zreal(v) < -(2**63))), "sqrt:int-beyond-64-bits"):
+                I.raise_("TypeError", "loop of ufunc does not support argument 0 of type int", implicit=True, site="np.sqrt of a Python int beyond 64 bits")
             if I.truth(zreal(v) < 0, "sqrt:neg"):
                 return NAN
             s = I.ps.fresh("sqrt", "Real")
             I.ps.assume(z3.And(s >= 0, s * s == zreal(v)))
             return Num(s, TAG_NPFLOAT)
+        if isinstance(v, int) and not isinstance(v, bool) and (v >= 2**64 or v < -(2**63)):
+            I.raise_("TypeError", "loop of ufunc does not support argument 0 of type int", implicit=True, site="np.sqrt of a Python int beyond 64 bits")
         if v < 0:
             return NAN
         return math.sqrt(v)
